@@ -4,7 +4,7 @@ import types
 import build
 
 
-def configs(task="detection", targets=("car", "pedestrian", "bicycle", "unknown"), crit=None, pass_thr=None, metrics=None):
+def configs(task="detection", targets=("car", "pedestrian", "bicycle", "unknown"), crit=None, pass_thr=None, metrics=None, pass_targets=None):
     from perception_eval.common.evaluation_task import EvaluationTask
     from perception_eval.common.label import LabelConverter
     from perception_eval.evaluation.metrics.metrics_score_config import MetricsScoreConfig
@@ -15,7 +15,8 @@ def configs(task="detection", targets=("car", "pedestrian", "bicycle", "unknown"
     n = len(targets)
     crit = crit or dict(max_x_position_list=[10.0] * n, max_y_position_list=[10.0] * n)
     cof = CriticalObjectFilterConfig(ev, list(targets), **crit)
-    pfc = PerceptionPassFailConfig(ev, list(targets), matching_threshold_list=pass_thr if pass_thr is not None else [1.0] * n)
+    # pass_targets: the pass/fail configuration may list the labels in an order of its own (pass_thr goes with that order)
+    pfc = PerceptionPassFailConfig(ev, list(pass_targets or targets), matching_threshold_list=pass_thr if pass_thr is not None else [1.0] * n)
     mparams = dict(target_labels=cof.target_labels, center_distance_thresholds=[[1.0] * n], plane_distance_thresholds=[[1.0] * n],
                    iou_2d_thresholds=[[0.5] * n], iou_3d_thresholds=[[0.5] * n])
     if et in (EvaluationTask.DETECTION, EvaluationTask.TRACKING):
@@ -27,13 +28,13 @@ def configs(task="detection", targets=("car", "pedestrian", "bicycle", "unknown"
 
 
 def frame_result(est, gt, ego=None, task="detection", targets=("car", "pedestrian", "bicycle", "unknown"), crit=None, pass_thr=None,
-                 policy="DEFAULT", matching_mode="Center Distance", metrics=None, frame_name="0", unix_time=0, previous=None, evaluate=True, registry=True):
+                 policy="DEFAULT", matching_mode="Center Distance", metrics=None, frame_name="0", unix_time=0, previous=None, evaluate=True, registry=True, pass_targets=None):
     """est/gt: lists of object descriptions (build.obj3d); ego: None (objects in base_link) or ego pose dict (objects may be in map)"""
     from perception_eval.common.dataset import FrameGroundTruth
     from perception_eval.evaluation.matching.object_matching import MatchingMode, MatchingLabelPolicy
     from perception_eval.evaluation.result.object_result import get_object_results
     from perception_eval.evaluation.result.perception_frame_result import PerceptionFrameResult
-    et, cof, pfc, msc = configs(task, targets, crit, pass_thr, metrics)
+    et, cof, pfc, msc = configs(task, targets, crit, pass_thr, metrics, pass_targets)
     eo = [build.obj3d(d) for d in est]
     go = [build.obj3d(d) for d in gt]
     # registry=False: an ego-frame frame built without any transform (FrameGroundTruth then carries an EMPTY registry, not None)
